@@ -24,6 +24,9 @@ type Obligation struct {
 	Text    string   // source text of the clause
 	Values  []string // terms to get-value on sat
 	ExpectSat bool   // cover queries: sat is the good answer
+	PrePrefix int    // cover.call queries: script position and path condition BEFORE the callee's clauses were
+	PreGoal   Term   // assumed; if that is already unreachable the cover is moot (dead path), not vacuous
+	HasPre    bool
 	QuickOnly bool   // recorded known finding: one short attempt is enough (it is expected not to discharge)
 	Err     string   // generation failure (counts as undischarged)
 	Fx      *FnExec  // the function execution this obligation belongs to (for replay)
@@ -80,6 +83,7 @@ type FnExec struct {
 	opaque   map[string]int
 	assumed  map[string]bool // keys of trusted contracts used
 	usedCtr  map[string]bool // keys of checked contracts used at call sites
+	siteSeen map[ssa.Instruction]int // call-site ordinals for "callee@N" callsite clauses
 	curInstr ssa.Instruction
 	panicRs  []Term
 	pathCuts int
@@ -341,6 +345,18 @@ func (fx *FnExec) Run() (err error) {
 	}
 	fx.entry = st.Clone()
 	fx.entry.frozen = true
+	// axioms of the contract files: state-free facts about uninterpreted spec functions; assumed in every
+	// script and listed as assumptions in the evidence
+	for _, ax := range fx.g.axioms {
+		env := &SpecEnv{fx: fx, st: st, old: fx.entry, vars: map[string]SpecVal{}}
+		if p := fx.g.typesPkg(ax.Pkg); p != nil {
+			env.pkg = p
+		} else if fx.fn.Pkg != nil {
+			env.pkg = fx.fn.Pkg.Pkg
+		}
+		fx.sc.Assume(env.EvalBool(ax.Expr))
+		fx.assumed["axiom "+ax.Name+": "+ax.Src] = true
+	}
 	fx.entryPos = fx.sc.Pos()
 	// preconditions
 	if fx.contract != nil {
@@ -606,6 +622,7 @@ func (fx *FnExec) backEdge(st *State, cond Term, li *loopInfo) {
 			s3.R = fx.sc.Define("R$iter", cond)
 			for _, cl := range its {
 				env := fx.specEnv(s3, fx.entry, nil, true)
+				env.head = li.entrySt
 				env.pos = li.maxPos
 				fx.AssertClause(s3, env, fmt.Sprintf("loop%d.iter.%s", li.ordinal, cl.Label), "iteration-ensures", cl)
 			}
